@@ -170,6 +170,11 @@ func readerPlans(t *tape.Tape, n int, thorough bool) []iosim.Plan {
 		}
 	}
 	plans = append(plans, iosim.Plan{Kind: iosim.EOFWithByte})
+	// an expired read deadline: the error says Temporary() / Timeout() and every
+	// later Read fails the same way
+	for i := 0; i < 3; i++ {
+		plans = append(plans, iosim.Plan{Kind: []iosim.Kind{iosim.ErrAt, iosim.ErrWithByte}[t.Draw(2)], K: t.Draw(n + 1), Timeout: true})
+	}
 	for i := 0; i < 3; i++ {
 		plans = append(plans, iosim.Plan{Kind: iosim.ZeroReads, K: t.Draw(n + 1), M: 1 + t.Draw(3)})
 	}
@@ -280,6 +285,8 @@ var c03Adversarial = []string{
 	"query ($: Int) { title }",
 	"{ keepers { friend { friend { friend { friend { friend { friend { friend { friend { name } } } } } } } } } }",
 	"{ ...F } fragment F on Query { title ... { ...F } }",
+	"{ echo(s: \"tag \U000E0067\U000E007F private \U000F0000 last \U0010FFFF\", n: 1) }",
+	"query($v: String! = \"\U000E0067 \u0085 \uFFFE\") { echo(s: $v, n: 1) t: title }",
 	"{ join(words: [\"a\", null]) }",
 	"{ join(words: [[\"a\"], 1, {x: 2}]) j2: join(words: \"a\") j3: join }",
 	"query($x: [String]) { join(words: $x) }",
@@ -324,6 +331,9 @@ var c03AdversarialSDL = []string{
 	"\"\"\"", "\"\"\" x", "\"x\" \"y\" type T { a: Int }", "type T { \"d\" }", "type T { \"\"\"d\"\"\" a: Int \"e\" }",
 	"type Query { a: Query } extend type Query { a: Int }", "interface I { a: I } type T implements I { a: T } type T2 implements I { a: [T] }",
 	"type T { a: Int }\ntype T { a: Int }", "type Int { a: Int }", "scalar Int", "enum __E { A }", "input I { a: I! }",
+	// strings with non-printable runes outside the basic plane (tags, private use, the last code point)
+	"\"about \U000E0067\U000E007F \U000F0000 \U0010FFFF\"\ntype T { a(x: String = \"d \U000E0001 \u0085 \uFFFE\"): String @deprecated(reason: \"r \U000E007F\") }",
+	"\"\"\"\nblock \U000E0067 \U0010FFFF\n\"\"\"\nenum E { \"v \U000F0000\" A }",
 	// directive loops that are entered from outside the loop, longer loops, a directive used twice
 	"directive @outer(x: Int @inner) on FIELD_DEFINITION\ndirective @inner(y: Int @inner) on ARGUMENT_DEFINITION",
 	"directive @a(x: Int @b) on ARGUMENT_DEFINITION\ndirective @b(y: Int @c) on ARGUMENT_DEFINITION\ndirective @c(z: Int @b) on ARGUMENT_DEFINITION",
@@ -483,7 +493,8 @@ func (c C03) Run(t *tape.Tape, opt core.RunOpt) (res core.Result) {
 			res.SubSigs = append(res.SubSigs, core.Hash64("exe", doc, p.String()))
 		}
 	case 3: // values
-		vals := []string{`{a: 1, b: [true, null, "xA\n"], c: {d: -1.5e3, e: $v, f: SYM}}`, `[1, [2, [3, [4]]]]`, `"""block
+		vals := []string{"\"tag \U000E0067\U000E007F private \U000F0000 last \U0010FFFF flag \U0001F3F4\U000E0067\U000E0062 nonchar \uFFFE\"", "{k: [\"\U000E0001\", \"\u0085\u2028\u00ad\"]}",
+			`{a: 1, b: [true, null, "xA\n"], c: {d: -1.5e3, e: $v, f: SYM}}`, `[1, [2, [3, [4]]]]`, `"""block
   string"""`, `{"json": "style", "k": [1.0, 2]}`, `-0`, `1e400`, `"\ud800"`, `{a: {a: {a: {a: {a: 1}}}}}`}
 		doc := vals[t.Draw(len(vals))]
 		mut := "none"
